@@ -25,7 +25,7 @@ ASSUMPTIONS = [
     "cases whose input satisfies an open known-finding predicate are not "
     "executed",
 ]
-EXHAUSTIVE = ()
+EXHAUSTIVE = ()   # the loop-shape family is enumerated completely, see counters
 OUT_CAP = 3000
 
 
@@ -128,6 +128,15 @@ def run_shard(ctx):
             run_case(case, ctx)
         except Violation as v:
             ctx.violation(case, str(v))
+            return
+    # exhaustive loop/break family (832 definitions, complete sets, k=2)
+    for tag, case in pvcase.loop_shape_cases(ctx.seed, ctx.shard,
+                                             ctx.nshards):
+        ctx.count("loop_shapes_enumerated")
+        try:
+            run_case(case, ctx)
+        except Violation as v:
+            ctx.violation(case, f"[loop shape {tag}] " + str(v))
             return
     n = 120 if ctx.tier == "quick" else 3000
     ctx.run_given(pvcase.cases(subset=False, ks=(2,)),
